@@ -182,11 +182,18 @@ def run(ctx):
                                      "not every constant parameter is referenced on the instance at construction%s: a later class-level set changes what an existing instance holds" % (
                                          " (selection narrowed by %s)" % ", ".join(narrowed[-1][1]) if narrowed else ""))
     ip = ctx.repo.func(P + "Parameters._instantiate_param")
-    src = norm(ip.node)
     a = ip.node.args
     dflt = {x.arg: d for x, d in zip(a.args[-len(a.defaults):], a.defaults)}
-    ok = "copy.deepcopy if deepcopy else" in src and isinstance(dflt.get("deepcopy"), ast.Constant) and dflt["deepcopy"].value is True \
-        and "instantiator(param_obj.default)" in src.replace(" ", "").replace("instantiator(param_obj.default)", "instantiator(param_obj.default)")
+    flag = next((k for k, d in dflt.items() if isinstance(d, ast.Constant) and d.value is True and "copy" in k), None)
+    sel = [st for st in walk_stmts(ip.node) if isinstance(st, ast.Assign) and isinstance(st.value, ast.IfExp) and norm(st.value.body) == "copy.deepcopy"
+           and flag is not None and norm(st.value.test) == flag]
+    ok = False
+    if sel:
+        fn = sel[0].targets[0].id if isinstance(sel[0].targets[0], ast.Name) else None
+        applied = [c for c in ast.walk(ip.node) if isinstance(c, ast.Call) and isinstance(c.func, ast.Name) and c.func.id == fn and c.args
+                   and isinstance(c.args[0], ast.Attribute) and c.args[0].attr == "default"]
+        identity = isinstance(sel[0].value.orelse, ast.Lambda) and norm(sel[0].value.orelse.body) == sel[0].value.orelse.args.args[0].arg
+        ok = bool(applied) and identity
     (ctx.ok if ok else ctx.fail)("R12.e", ip, ip.node, "_instantiate_param stores deepcopy(default) when deepcopy else default itself" if ok else
                                  "_instantiate_param no longer selects copy.deepcopy by its deepcopy flag (default True) applied to param_obj.default")
 
